@@ -1,2 +1,204 @@
-// Package c07 will hold the check for property C07.
+// Package c07 decides C07: the memory store and the file store each behave like a map from
+// mailbox name to an arrival-ordered list of messages, and are observationally equivalent.  The
+// same generated operation sequence is applied to a real mem store and a real file store; every
+// return value and, after every operation, the complete state of every mailbox of the history is
+// compared with the reference model (internal/model), and the two back-ends with each other.
+//
+// The package also exports the operation-sequence generator (seq.go) and the executor (exec.go)
+// used by C08 and C10.
 package c07
+
+import (
+	"fmt"
+	"os"
+	"sort"
+	"strings"
+	"time"
+
+	"github.com/inbucket/inbucket/v3/pkg/config"
+	"github.com/inbucket/inbucket/v3/pkg/extension"
+
+	"verifharness/internal/fw"
+	"verifharness/internal/sut"
+)
+
+func init() {
+	fw.Register(&fw.Prop{
+		ID:    "C07",
+		Level: "exploration",
+		Rule: "operation sequences of 30-300 ops generated from (seed, case index) over 3-6 mailbox names (groups brute-forced to share " +
+			"the first 3 or 6 hex digits of the mailbox hash = same file-store lock bucket and directory; names with '@', specials, " +
+			"control bytes, invalid UTF-8, Unicode incl. an NFC/NFD pair, a case pair, 300 characters, the empty name), arbitrary metadata " +
+			"(display names, 0-4 To entries, dates with sub-second and zone parts, zero date) and bodies (0 bytes .. 70 KB, binary); ops " +
+			"add / get(live|removed|never-issued|id of another mailbox) / latest / list / mark-seen / remove / purge / visit, with " +
+			"re-add after purge, remove twice, latest after purge.  The SAME sequence is applied to a real mem store and a real file " +
+			"store; each return value and, after every op, every mailbox of the history is compared with the reference model; the two " +
+			"back-ends are compared op by op (ids by position).  A case is non-trivial when it delivered, removed and looked up a " +
+			"missing message at least once; distinct by (name classes, set of operation/outcome features reached, length bucket).",
+		Assumptions: []string{
+			"the stores are driven through the storage.Store interface with message.Delivery values, as StoreManager does; From is never nil and To has no nil element",
+			"Size() is compared with the number of bytes of the Delivery reader (Delivery.Size is set to the same value)",
+			"dates are compared with time.Equal (gob does not keep the zone name)",
+			"MarkSeen/RemoveMessage are never called with the id \"latest\" (unspecified); ids differing from \"latest\" only in case are treated as ordinary ids",
+			"empty mailboxes reported by VisitMailboxes are ignored; whether the callback is called again after it returned false is counted, not judged",
+			"the empty mailbox name is an ordinary name at the Store interface (both stores treat it so); it is judged like any other name",
+			"the file store issues ids from the wall-clock second plus a process-wide 4-digit counter: the check assumes fewer than 10000 deliveries per second per process",
+		},
+		MinObs: func(tier string) map[string]int64 {
+			k := int64(1)
+			if tier == "thorough" {
+				k = 15
+			}
+			return map[string]int64{
+				"distinct_nontrivial":              100 * k,
+				"mem/op:add":                       6000 * k,
+				"file/op:add":                      6000 * k,
+				"file/missing_lookups":             1500 * k,
+				"mem/missing_lookups":              1500 * k,
+				"file/missing_removes":             600 * k,
+				"mem/missing_markseen":             300 * k,
+				"file/removed":                     1500 * k,
+				"mem/purged_messages":              300 * k,
+				"file/feat:readd-after-purge":      100 * k,
+				"file/feat:remove-twice":           150 * k,
+				"file/feat:remove-middle":          300 * k,
+				"file/feat:latest-after-purge":     50 * k,
+				"mem/visited_mailboxes_compared":   3000 * k,
+				"ops_compared_between_backends":    30000 * k,
+				"sequences_with_same_bucket_names": 100 * k,
+				"file/ops_on_empty_name":           50 * k,
+				"file/marked_seen":                 500 * k,
+			}
+		},
+		ChildTimeout: func(tier string) time.Duration {
+			if tier == "thorough" {
+				return 150 * time.Minute
+			}
+			return 25 * time.Minute
+		},
+		Run: run,
+	})
+}
+
+func run(c *fw.Ctx) {
+	n := c.N(600, 12000)
+	c.Cases("seq", n, func(i int, r *fw.Rand) {
+		ok, dump := c.Within(10*time.Minute, func() { runSeq(c, i, r) })
+		if !ok {
+			c.Hang("store-operation", "an operation sequence did not finish within the watchdog", dump)
+		}
+	})
+}
+
+// Report transfers an executor's findings and counters to the framework.
+func Report(c *fw.Ctx, e *Exec, prefix string) {
+	for _, f := range e.Fails {
+		c.Violation(f.Key, f.What, f.Detail)
+	}
+	for k, v := range e.Counts {
+		if strings.HasPrefix(k, "max_") {
+			c.Max(k, v)
+		} else {
+			c.Count(prefix+k, v)
+		}
+	}
+}
+
+// FeatureSig renders the feature set of an executor.
+func FeatureSig(e *Exec) string {
+	var fs []string
+	for f := range e.Feats {
+		fs = append(fs, f)
+	}
+	sort.Strings(fs)
+	return strings.Join(fs, ",")
+}
+
+// NameSig renders the classes of a name set.
+func NameSig(names []Name) string {
+	var cs []string
+	for _, n := range names {
+		cs = append(cs, n.Class)
+	}
+	sort.Strings(cs)
+	return strings.Join(cs, ",")
+}
+
+// BoxTexts returns the name texts.
+func BoxTexts(names []Name) []string {
+	out := make([]string, len(names))
+	for i, n := range names {
+		out[i] = n.Text
+	}
+	return out
+}
+
+func runSeq(c *fw.Ctx, idx int, r *fw.Rand) {
+	names := PickNames(r, r.Range(3, 6))
+	nops := r.Range(30, 300)
+	if r.Chance(1, 6) {
+		nops = r.Range(30, 60)
+	}
+	ops := GenOps(r, names, nops, C07Weights, fmt.Sprintf("c07-%d", idx), nil, false)
+	boxes := BoxTexts(names)
+
+	host := extension.NewHost()
+	ms, err := sut.NewStore("mem", config.Storage{Type: "memory", Params: map[string]string{}}, host)
+	if err != nil {
+		panic(err)
+	}
+	dir := c.TempDir("c07fs")
+	defer os.RemoveAll(dir)
+	fs, err := sut.NewStore("file", config.Storage{Type: "file", Params: map[string]string{"path": dir}}, host)
+	if err != nil {
+		panic(err)
+	}
+	em := NewExec("C07", "mem", "no cap/limit", ms, 0, 0, boxes)
+	ef := NewExec("C07", "file", "no cap/limit", fs, 0, 0, boxes)
+	ef.ContentEvery = 8
+
+	for k, op := range ops {
+		om := em.Apply(op)
+		of := ef.Apply(op)
+		if em.Dead() || ef.Dead() {
+			break
+		}
+		if om != "" && of != "" {
+			c.Count("ops_compared_between_backends", 1)
+			if om != of {
+				c.Violation("C07:backends-differ:"+op.Kind, fmt.Sprintf("operation %d %s: mem store observed %q, file store %q", k+1, op.String(), om, of),
+					map[string]any{"mem_trace": em.Trace, "file_trace": ef.Trace})
+				break
+			}
+		}
+	}
+	if !em.Dead() && !ef.Dead() {
+		for _, e := range []*Exec{em, ef} {
+			e.Step++
+			if e.VerifyAll("at-end", "", true) {
+				e.Visit(0, true)
+			}
+		}
+	}
+	Report(c, em, "mem/")
+	Report(c, ef, "file/")
+
+	classes := NameSig(names)
+	if strings.Contains(classes, "same-") {
+		c.Count("sequences_with_same_bucket_names", 1)
+	}
+	for _, n := range names {
+		c.Count("name_class:"+n.Class, 1)
+	}
+	if ef.Counts["op:add"] > 0 && ef.Counts["removed"] > 0 && ef.Counts["missing_lookups"]+ef.Counts["missing_removes"]+ef.Counts["missing_markseen"] > 0 {
+		c.NonTrivial(fmt.Sprintf("names=%s|feats=%s|len=%d", classes, FeatureSig(ef), nops/50))
+	}
+	c.Sample(map[string]any{"names": boxes, "ops": nops, "first_ops": head(ef.Trace, 14), "file_counts": ef.Counts})
+}
+
+func head(t []string, n int) []string {
+	if len(t) > n {
+		return append([]string{}, t[:n]...)
+	}
+	return t
+}
